@@ -386,13 +386,6 @@ Proof.
   intros post o. induction o as [|x o IH]; intros m err y H; cbn [fold_left] in H; [exact H|].
   destruct (c02_obs post (m, err) x) as [m1 e1] eqn:E. apply IH in H. pose proof (c02_obs_syncs_incl post m err x y) as H1. rewrite E in H1. exact (H1 H).
 Qed.
-Lemma retry_fold_syncs : forall cfg post e o m0 m3, m_syncs (fst (retry_fold cfg post e o m0 m3)) = m_syncs m3.
-Proof.
-  intros cfg post e o m0 m3. unfold retry_fold. cbv zeta.
-  match goal with |- m_syncs (fst (fold_left ?g o ?a)) = _ => apply (fold_left_pres (fun acc => m_syncs (fst acc) = m_syncs m3) g o) end; [|reflexivity].
-  intros [m err] x H. cbn [fst] in *. destruct x; try exact H. destruct d; try exact H.
-  destruct (find _ _) as [[c' w]|]; [|exact H]. destruct (find_dworker _ _ _) as [k|]; [|exact H]. destruct (dw_task k); exact H.
-Qed.
 Lemma pm2_syncs : forall e o m, m_syncs (pm2 e o m) = m_syncs (mon_event e m).
 Proof.
   intros e o m. unfold pm2, pm1. cbv zeta. cbn [m_syncs set]. destruct e; try reflexivity.
@@ -406,7 +399,7 @@ Proof.
 Qed.
 Lemma pm_final_syncs_incl : forall cfg pre d e o m y, In y (m_syncs (pm_final cfg pre d e o m)) -> In y (m_syncs (mon_event e m)).
 Proof.
-  intros cfg pre d e o m y H. unfold pm_final in H. rewrite retry_fold_syncs in H. rewrite pm_clear_eq in H. cbn [m_syncs set] in H.
+  intros cfg pre d e o m y H. destruct (pm_final_frame cfg pre d e o m) as [_ [E _]]. cbv zeta in E. rewrite E in H.
   unfold pm3 in H. apply c02_fold_syncs_incl in H. rewrite pm2_syncs in H. exact H.
 Qed.
 Lemma MPs_step : forall pfx e h m cfg pre d o, MPs pfx m -> MPs (pfx ++ [(e, h)]) (pm_final cfg pre d e o m).
